@@ -459,6 +459,15 @@ func (g *genState) settlementMsg() *Msg {
 			if g.p.Adversarial && r.Chance(8) {
 				m.Contract = []string{"0x0000000000000000000000000000000000000000", "0x12", "zz", ""}[r.Intn(4)]
 			}
+			if len(g.h.Genesis.Chains) > 1 && r.Chance(40) {
+				// the same contract address and token id on ANOTHER supported chain: a different NFT
+				for _, pr := range g.recs {
+					if pr.external && !pr.gone && pr.chain != m.Chain && pr.chain != ChainID {
+						m.Contract, m.Tok = pr.contract, pr.tok
+						break
+					}
+				}
+			}
 		}
 		if m.Chain == ChainID && (g.p.Adversarial || g.p.Mint) && r.Chance(12) {
 			// an NFT "contract" on this chain that is an address the EVM reserves, or one without code
